@@ -1,5 +1,6 @@
 """C04 driver — tokens are unforgeable, class-separated and bound to their session."""
 import base64
+import copy
 import json
 import random
 
@@ -46,9 +47,25 @@ RULE = ("(a) plaintext correspondence: real opaque tokens of every class are dec
         "it was minted for, the answer equals the answer the token's own client gets for the same value (says and body, nothing excepted), "
         "an asker the configured audience rule does not admit gets no active answer; who is answered at all and with which session is "
         "compared with Model/TokenFmt.v may_ask / tprocess (the asker is an argument of the introspection answer there). "
+        "(g) WHERE THE HANDLER KEYS COME FROM: histories of 2-3 provider instances built independently in one process - real providers with "
+        "sessions, the handlers of handler.factory, DefaultToken objects built directly - whose opaque class handlers and session manager "
+        "get their key from the deployment (crypt_conf with a key / a password and a salt) or from the LIBRARY (the documented "
+        "`code: {lifetime: 600}`, `kwargs: {}`, a crypt_conf that names only the class / only a password / only a salt / key_defs without "
+        "a key file, one configuration object shared by all handlers, session_params absent / empty / without key material; 16 + 6 ways), "
+        "other encrypter-building library calls in between, JWT handlers next to opaque ones.  The key material is read off every built "
+        "handler and compared with Model/TokenFmt.v ibuild_all under a supply of distinct draws (chk_ifresh); every code, access token and "
+        "refresh token of every instance, and every genuine token with its plaintext encrypted anew under every other handler / session "
+        "manager key of the history, is offered at the class handlers, TokenHandler.info, the session manager with and without handler_key "
+        "and the endpoints, and compared with the model (chk_icross).  Oracle: an instance accepts a value only if it minted it; instances "
+        "whose keys the library generated accept nothing of each other and nothing made with each other's keys (control: instances the "
+        "harness gave the same keys read each other's tokens at the handler, and still resolve none). "
         "A case is one presentation; non-trivial when the presented string derives from a genuine token.")
 ASSUMPTIONS = ["Fernet is an authenticated encryption and JWS signatures are unforgeable (symbolic model); byte-level mutations are exercised on the real libraries",
-               "rndstr(32) / uuid values are fresh"]
+               "rndstr(32) / uuid values are fresh",
+               "freshness: two different draws from the process's random source (os.urandom, Fernet.generate_key, the key jar's generated "
+               "OCT keys) never yield the same key material - hypothesis `draws_distinct sup` of C04_generated_keys_fresh / "
+               "C04_independent_instances_refuse / C04_other_instance_cannot_forge; that the library draws anew for every handler of every "
+               "instance it builds is checked on every run (chk_ifresh on the key material read off independently built real instances)"]
 
 CLASSES = ["authorization_code", "access_token", "refresh_token"]
 
@@ -1770,6 +1787,593 @@ def third_party_oracle(ctx, rng, variant, mode):
         fl.close()
 
 
+# ---------------------------------------------------------------------------------------------------------------
+# (g) INDEPENDENT INSTANCES: WHERE THE HANDLER KEYS COME FROM.  Several provider instances live in one process
+# (tenants, federation entities, two Server objects in one test).  The key of every opaque class handler and of the
+# session manager is either GIVEN by the deployment (crypt_conf with a key, or with a password and a salt) or the
+# LIBRARY generates it (the documented `"code": {"lifetime": 600}`, `kwargs: {}`, a crypt_conf without key material,
+# DefaultToken / init_encrypter / Database built with no configuration).  Histories of 2-3 independently built
+# instances (real providers, handler.factory handlers, DefaultToken objects), other encrypter-building library calls in
+# between; the key material is read off every handler (Model/TokenFmt.v chk_ifresh: every generated key is a new draw),
+# every instance runs sessions, and every code / access token / refresh token of every instance - and every genuine
+# token with its plaintext encrypted anew under every other key of the history - is offered to the handlers, the
+# session manager and the endpoints in every class slot (chk_icross).  Oracle: a value is accepted by an instance only
+# if that instance minted it; instances with library-generated keys accept nothing of each other (control: instances
+# the harness gave the same explicit keys resolve each other's tokens at the handler).
+import hashlib as _hashlib
+
+GEN = "gen"
+IK_PW, IK_SALT = "pw-verif-0123456789", "salt-verif-0123456789"          # = srv.crypt_config(): the pinned configuration
+IK_PW2, IK_SALT2 = "another password 0123456789", "another salt 0123456789"
+IK_RAW = {1: _hashlib.sha256(b"C04 given handler key 1").digest(), 2: _hashlib.sha256(b"C04 given handler key 2").digest(),
+          6: _hashlib.sha256(b"C04 given session manager key").digest()}
+IK_LOCAL_FIRST = 500            # numbers of key material the harness did not give (all below Model/TokenFmt.v gen_base)
+I_SLOTS = [("code", "authorization_code", 600), ("token", "access_token", 3600), ("refresh", "refresh_token", 86400)]
+I_OTHER_DRAWS = {"server": 7, "default-token": 1, "init_encrypter": 1, "default_crypt_config": 1, "session-database": 1, "cookie-handler": 1}
+I_ABSENT = object()
+
+
+def _derived_key(pw, salt):
+    from cryptojwt.jwe.fernet import FernetEncrypter
+    return base64.urlsafe_b64decode(FernetEncrypter(password=pw, salt=salt, iterations=1).key)
+
+
+def ik_given():
+    if 3 not in IK_RAW:
+        IK_RAW[3] = _derived_key(IK_PW, IK_SALT)
+        IK_RAW[4] = _derived_key(IK_PW2, IK_SALT2)
+    return IK_RAW
+
+
+class IEnv:
+    """configuration OBJECTS that several handlers / instances of a history share (a module constant, a YAML anchor)"""
+
+    def __init__(self):
+        self.shared_spec = {"lifetime": 900, "kwargs": {}}
+        self.shared_crypt = {"class": "cryptojwt.jwe.fernet.FernetEncrypter"}
+
+
+def handler_sources():
+    """how the specification of one opaque class handler (a token_handler_args entry) says - or does not say - where the
+    key comes from: name -> (model: GEN | number of the given key, lt, env -> entry)"""
+    from idpyoidc.encrypter import DEFAULT_CRYPTO, default_crypt_config
+    cc = lambda lt, conf: {"lifetime": lt, "kwargs": {"crypt_conf": conf}}
+    return {
+        # ---- the library generates the key
+        "lifetime-only": (GEN, lambda lt, e: {"lifetime": lt}),                                  # the documented set-up
+        "empty-kwargs": (GEN, lambda lt, e: {"lifetime": lt, "kwargs": {}}),
+        "kwargs-lifetime": (GEN, lambda lt, e: {"kwargs": {"lifetime": lt}}),
+        "explicit-class": (GEN, lambda lt, e: {"class": "idpyoidc.server.token.DefaultToken", "lifetime": lt}),
+        "explicit-class-kwargs": (GEN, lambda lt, e: {"class": "idpyoidc.server.token.DefaultToken", "kwargs": {"lifetime": lt, "token_type": "Bearer"}}),
+        "legacy-password": (GEN, lambda lt, e: {"lifetime": lt, "password": IK_PW}),           # no encrypter configuration
+        "crypt-none": (GEN, lambda lt, e: cc(lt, None)),
+        "crypt-class-only": (GEN, lambda lt, e: cc(lt, {"class": DEFAULT_CRYPTO})),
+        "crypt-class-only-same-object": (GEN, lambda lt, e: cc(lt, e.shared_crypt)),
+        "crypt-empty-kwargs": (GEN, lambda lt, e: cc(lt, {"kwargs": {"iterations": 1}})),
+        "crypt-key-none": (GEN, lambda lt, e: cc(lt, {"kwargs": {"key": None}})),
+        "crypt-default-config": (GEN, lambda lt, e: cc(lt, default_crypt_config())),
+        "crypt-key_defs": (GEN, lambda lt, e: cc(lt, copy.deepcopy(srv.CRYPT_CONFIG))),
+        "crypt-password-without-salt": (GEN, lambda lt, e: cc(lt, {"kwargs": {"password": IK_PW, "iterations": 1}})),
+        "crypt-salt-without-password": (GEN, lambda lt, e: cc(lt, {"kwargs": {"salt": IK_SALT, "iterations": 1}})),
+        "same-object": (GEN, lambda lt, e: e.shared_spec),
+        # ---- the harness supplies it
+        "given-key-1": (1, lambda lt, e: cc(lt, {"kwargs": {"key": IK_RAW[1]}})),
+        "given-key-2": (2, lambda lt, e: cc(lt, {"class": DEFAULT_CRYPTO, "kwargs": {"key": IK_RAW[2]}})),
+        "given-password-salt": (3, lambda lt, e: cc(lt, srv.crypt_config())),
+        "given-password-salt-top": (3, lambda lt, e: cc(lt, {"password": IK_PW, "salt": IK_SALT, "iterations": 1})),
+        "given-other-password-salt": (4, lambda lt, e: cc(lt, srv.crypt_config(IK_PW2, IK_SALT2))),
+    }
+
+
+def sm_sources():
+    """the session manager's encrypter (session_params): name -> (model, env -> session_params | I_ABSENT)"""
+    from idpyoidc.encrypter import DEFAULT_CRYPTO, default_crypt_config
+    return {
+        "absent": (GEN, lambda e: I_ABSENT),
+        "empty": (GEN, lambda e: {}),
+        "encrypter-default-config": (GEN, lambda e: {"encrypter": default_crypt_config()}),
+        "encrypter-class-only": (GEN, lambda e: {"encrypter": {"class": DEFAULT_CRYPTO}}),
+        "encrypter-key_defs": (GEN, lambda e: {"encrypter": copy.deepcopy(srv.CRYPT_CONFIG)}),
+        "encrypter-password-without-salt": (GEN, lambda e: {"encrypter": {"kwargs": {"password": IK_PW, "iterations": 1}}}),
+        "given-password-salt": (3, lambda e: {"encrypter": srv.crypt_config()}),
+        "given-key": (6, lambda e: {"encrypter": {"kwargs": {"key": IK_RAW[6], "salt": b"0123456789abcdef"}}}),
+    }
+
+
+def i_other_call(kind, sink):
+    """library calls that build encrypters / draw key material, between the constructions of instances"""
+    from idpyoidc.encrypter import default_crypt_config, init_encrypter
+    if kind == "server":
+        sink.append(srv.make_server(pinned=False))
+    elif kind == "default-token":
+        from idpyoidc.server.token import DefaultToken
+        sink.append(DefaultToken("access_token"))
+    elif kind == "init_encrypter":
+        sink.append(init_encrypter())
+    elif kind == "default_crypt_config":
+        sink.append(default_crypt_config())
+    elif kind == "session-database":
+        from idpyoidc.server.session.database import Database
+        sink.append(Database())
+    elif kind == "cookie-handler":
+        from idpyoidc.server.cookie_handler import CookieHandler
+        from idpyoidc.encrypter import DEFAULT_CRYPTO
+        sink.append(CookieHandler(crypt_config={"class": DEFAULT_CRYPTO}))
+
+
+def raw_key(obj):
+    c = getattr(obj, "crypt", None)
+    return None if c is None or getattr(c, "key", None) is None else base64.urlsafe_b64decode(c.key)
+
+
+class Instance:
+    """one independently built instance: `kind` provider (a real Server with sessions), factory (the handlers of
+    idpyoidc.server.token.handler.factory + a session Database) or direct (DefaultToken objects + a Database).
+    spec: {"code": source, "token": source | "jwt", "refresh": source | "jwt", "sm": source}"""
+
+    def __init__(self, kind, spec, env, hs, sms):
+        self.kind, self.spec, self.rs = kind, dict(spec), None
+        self.model = {"code": None if spec["code"] == "jwt" else hs[spec["code"]][0],
+                      "token": None if spec["token"] == "jwt" else hs[spec["token"]][0],
+                      "refresh": None if spec["refresh"] == "jwt" else hs[spec["refresh"]][0],
+                      "sm": sms[spec["sm"]][0]}
+        ik_given()
+        if kind == "provider":
+            self._provider(env, hs, sms)
+        else:
+            self._bare(env, hs, sms)
+        self.keys = [raw_key(self.th.handler[cls]) for _, cls, _ in I_SLOTS] + [raw_key(self.sm)]
+
+    def _provider(self, env, hs, sms):
+        spec = self.spec
+        old_mk, old_conf = srv.make_server, srv.op_conf
+
+        def mk(*a, **k):
+            k.setdefault("pinned", False)
+            return old_mk(*a, **k)
+
+        def conf(*a, **k):
+            c = old_conf(*a, **k)
+            for slot, _, lt in I_SLOTS:
+                if spec[slot] != "jwt":
+                    c["token_handler_args"][slot] = hs[spec[slot]][1](lt, env)
+            sp = sms[spec["sm"]][1](env)
+            if sp is I_ABSENT:
+                c.pop("session_params", None)
+            else:
+                c["session_params"] = sp
+            return c
+        srv.make_server, srv.op_conf = mk, conf
+        try:
+            self.rs = FastSession(oidc=True, jwt_access=spec["token"] == "jwt", jwt_refresh=spec["refresh"] == "jwt")
+        finally:
+            srv.make_server, srv.op_conf = old_mk, old_conf
+        self.th, self.sm = self.rs.sm.token_handler, self.rs.sm
+
+    def _bare(self, env, hs, sms):
+        from idpyoidc.server.session.database import Database
+        from idpyoidc.server.token import handler as H, DefaultToken
+        spec = self.spec
+        if self.kind == "factory":
+            args = {slot: hs[spec[slot]][1](lt, env) for slot, _, lt in I_SLOTS}
+            self.th = H.factory(lambda *a: srv.RUN, **args)
+        else:       # DefaultToken objects built directly: what the entry says goes to the constructor
+            objs = {}
+            for slot, cls, lt in I_SLOTS:
+                entry = hs[spec[slot]][1](lt, env)
+                kw = dict(entry.get("kwargs") or {})
+                kw.setdefault("lifetime", entry.get("lifetime", lt))
+                objs[cls] = DefaultToken(cls, **kw)
+            self.th = H.TokenHandler(**objs)
+        sp = sms[spec["sm"]][1](env)
+        conf = None if sp is I_ABSENT else sp.get("encrypter")
+        self.sm = Database(crypt_config=conf) if conf is not None else Database()
+
+    def flows(self, pairs):
+        """sessions; -> [{"user", "client", "authorization_code": value, "access_token": value, "refresh_token": value}]"""
+        out = []
+        if self.rs is None:
+            for n, (u, c) in enumerate(pairs):
+                sid = "%s;;%s;;grant-%d" % (u, c, n)
+                out.append(dict({"user": u, "client": c}, **{cls: self.th.handler[cls](session_id=sid) for _, cls, _ in I_SLOTS}))
+            return out
+        r = self.rs
+        for u, c in pairs:
+            o = r.run(("authz", u, c, ["openid", "email", "offline_access"]))
+            code = o[1][0]
+            spare = r.run(("authz", u, c, ["openid", "email", "offline_access"]))[1][0]
+            r.run(("tparse", c, ("tok", code), "same"))
+            p = r.run(("proc", len(r.parsed) - 1, None))
+            if p[0] != "ok":
+                raise RuntimeError("flow of (%s, %s) did not complete on an instance %r: %r" % (u, c, self.spec, p))
+            out.append({"user": u, "client": c, "authorization_code": r.tokens[spare], "access_token": r.tokens[p[1]["access_token"]],
+                        "refresh_token": r.tokens[p[1]["refresh_token"]]})
+        return out
+
+    def close(self):
+        if self.rs is not None:
+            self.rs.close()
+
+
+I_HSLOT = {"authorization_code": 0, "refresh_token": 1, "access_token": 2}       # Model/TokenFmt.v slot_of: SCode, SRefresh, SUserinfo
+I_CLS_NUM = {"authorization_code": 0, "access_token": 1, "refresh_token": 2}     # tk_of
+I_CLS_SLOT = {"authorization_code": "code", "access_token": "token", "refresh_token": "refresh"}
+I_KEYSLOT = ["code", "token", "refresh", "sm"]
+
+
+def coq_ispec(model):
+    def h(x):
+        if x is None:
+            return "(HsJwt 50%nat)"
+        return "(HsOpaque KsGen)" if x == GEN else "(HsOpaque (KsGiven %d%%nat))" % x
+    sm = "KsGen" if model["sm"] == GEN else "(KsGiven %d%%nat)" % model["sm"]
+    return "(mk_ispec %s %s %s 50%%nat %s)" % (h(model["code"]), h(model["token"]), h(model["refresh"]), sm)
+
+
+class InstanceHistories:
+    def __init__(self, ctx):
+        self.ctx = ctx
+        self.hs, self.sms = handler_sources(), sm_sources()
+        self.defs, self.fresh_cases, self.cross_cases = [], [], []
+        self.n = 0
+        self.listed = {}
+
+    def verdict(self, sig, what, rec):
+        """every verdict counts; the first 40 of a signature are listed with their input"""
+        self.listed[sig] = self.listed.get(sig, 0) + 1
+        if self.listed[sig] <= 40:
+            self.ctx.violation(sig, what, rec)
+        else:
+            self.ctx.count("instances:verdicts-not-listed:" + sig)
+
+    # ---- one history
+    def run(self, family, steps, pairs=(("diana", "client_1"), ("babs", "client_2")), reenc_flows=1):
+        """steps: [("i", kind, spec) | ("o", what)]"""
+        ctx = self.ctx
+        self.n += 1
+        hname = "ihist%d" % self.n
+        env = IEnv()
+        insts, sink, coq_steps, desc = [], [], [], []
+        try:
+            for st in steps:
+                if st[0] == "o":
+                    i_other_call(st[1], sink)
+                    coq_steps.append("IOther %d%%nat" % I_OTHER_DRAWS[st[1]])
+                    desc.append("other:" + st[1])
+                    continue
+                inst = Instance(st[1], st[2], env, self.hs, self.sms)
+                insts.append(inst)
+                if st[1] == "provider":
+                    coq_steps += ["IOther 3%nat", "IInst %s" % coq_ispec(inst.model), "IOther 4%nat"]      # cookie handler, key jar ...
+                else:
+                    coq_steps.append("IInst %s" % coq_ispec(inst.model))
+                desc.append("%s:%s" % (st[1], ",".join("%s=%s" % (k, inst.spec[k]) for k in I_KEYSLOT)))
+            self.defs.append("Definition %s : list istep := %s.\n" % (hname, coq_list(coq_steps, "istep")))
+            ctx.count("instances:history:" + family)
+            self._keys(family, hname, desc, insts)
+            self._present(family, hname, desc, insts, pairs, reenc_flows)
+        finally:
+            for i in reversed(insts):       # every instance installed its clock over the previous one
+                i.close()
+
+    # ---- the key material read off the instances
+    def _keys(self, family, hname, desc, insts):
+        ctx = self.ctx
+        given = ik_given()
+        local = {}
+
+        def number(raw):
+            if raw is None:
+                return None
+            for k, v in given.items():
+                if v == raw:
+                    return k
+            if raw not in local:
+                local[raw] = IK_LOCAL_FIRST + len(local)
+            return local[raw]
+        for inst in insts:
+            inst.ids = [number(r) for r in inst.keys]
+        hrec = {"kind": "instance-key-material", "family": family, "history": desc,
+                "specs": [[inst.model[k] for k in I_KEYSLOT] for inst in insts],
+                "key_fingerprints": [[None if r is None else _hashlib.sha256(r).hexdigest()[:12] for r in inst.keys] for inst in insts],
+                "key_ids": [inst.ids for inst in insts]}
+        ctx.case_seen(hrec, True)
+        o = lambda x: "None" if x is None else "(Some %d%%nat)" % x
+        self.fresh_cases.append(("(%s, %s)" % (hname, coq_list([coq_list([o(x) for x in inst.ids], "option nat") for inst in insts], "list (option nat)")), hrec))
+        slots = [(i, q, inst.model[k], inst.keys[q]) for i, inst in enumerate(insts) for q, k in enumerate(I_KEYSLOT)]
+        shared = []
+        for a in range(len(slots)):
+            for b in range(a + 1, len(slots)):
+                (i, q, sp, raw), (j, l, sp2, raw2) = slots[a], slots[b]
+                if raw is not None and raw == raw2 and (sp == GEN or sp2 == GEN):
+                    shared.append([i, I_KEYSLOT[q], j, I_KEYSLOT[l]])
+        for i, q, sp, raw in slots:
+            if isinstance(sp, int) and raw != given[sp]:
+                ctx.mismatch("instance %d (%s): the key material the configuration supplies for %s is not the key in use"
+                             % (i, desc[i] if i < len(desc) else "", I_KEYSLOT[q]), hrec)
+        if shared:
+            hrec["shared"] = shared
+            ctx.count("instances:generated-key-shared", len(shared))
+        ctx.count("instances:generated-keys-observed", sum(1 for _, _, sp, _ in slots if sp == GEN))
+
+    # ---- who accepts what
+    def _same_given(self, a, ka, b, kb):
+        """did the harness give the two key slots the same key?"""
+        x, y = a.model[ka], b.model[kb]
+        return (isinstance(x, int) and x == y) or (x is None and y is None and ka == kb)      # JWT handlers: one key file
+
+    def _present(self, family, hname, desc, insts, pairs, reenc_flows):
+        ctx = self.ctx
+        seen = set()
+
+        def model_case(i, j, cls, re, res, rec):
+            """one value at all the places it was offered (Model/TokenFmt.v igroup_slots: the class handlers and the class-agnostic
+            lookup at the handler, then at the session manager)"""
+            obs = tuple(res[(level, slot)] for level in ("handler", "sm") for slot in (0, 1, 2, 4) if (level, slot) in res)
+            key = (i, j, cls, re, obs)
+            if key in seen:
+                return
+            seen.add(key)
+            re_t = "None" if re is None else "(Some (%d, %d))" % re
+            self.cross_cases.append(("(%s, %d, %d, %d, %s, %s)" % (hname, i, j, I_CLS_NUM[cls], re_t, coq_list([coq_bool(b) for b in obs], "bool")),
+                                     dict(rec, accepted_at={"%s:%d" % k: v for k, v in res.items()})))
+
+        def ask(inst, value):
+            """-> {(level, slot): accepted} for the three class handlers and the class-agnostic lookup, at the handler
+            and (providers) at the session manager"""
+            out = {}
+            for hk, slot in list(I_HSLOT.items()) + [(None, 4)]:
+                try:
+                    info = inst.th.handler[hk].info(value) if hk else inst.th.info(value)
+                    out[("handler", slot)] = bool(info.get("sid"))
+                except Exception:
+                    out[("handler", slot)] = False
+                if inst.rs is not None:
+                    try:
+                        si = inst.sm.get_session_info_by_token(value, grant=True, handler_key=hk) if hk else \
+                            inst.sm.get_session_info_by_token(value, grant=True)
+                        out[("sm", slot)] = si.get("grant") is not None
+                    except Exception:
+                        out[("sm", slot)] = False
+            return out
+
+        def at_endpoints(inst, value, client, slots):
+            out = {}
+            if inst.rs is not None:
+                for s in slots:
+                    out[s] = present(inst.rs, s, value, client)[0] == "accepted"
+            return out
+
+        toks = [inst.flows(pairs) for inst in insts]
+        for i, a in enumerate(insts):
+            for fi, f in enumerate(toks[i]):
+                for cls in CLASSES:
+                    val = f[cls]
+                    own_slot = I_HSLOT[cls]
+                    # ---- the token as it is, offered to every instance of the history
+                    for j, b in enumerate(insts):
+                        res = ask(b, val)
+                        eps = at_endpoints(b, val, f["client"], ("userinfo", "introspection", "refresh", "code")) if i != j else {}
+                        base = {"kind": "instance-cross", "family": family, "history": desc, "minter": i, "presented_to": j,
+                                "minter_spec": a.spec, "receiver_spec": b.spec, "class": cls, "session": [f["user"], f["client"]],
+                                "value": val[:300]}
+                        model_case(i, j, cls, None, res, base)
+                        for (level, slot), acc in res.items():
+                            rec = dict(base, level=level, slot=slot, accepted=acc)
+                            ctx.case_seen(rec, True)
+                            if i == j:
+                                ctx.count("instances:own:%s:%s" % (level, "accepted" if acc else "refused"))
+                                if slot in (own_slot, 4) and not acc:
+                                    self.verdict("genuine-refused", "history %s: instance %d refuses its own %s (%s, slot %d)" % (desc, i, cls, level, slot), rec)
+                                if slot not in (own_slot, 4) and acc:
+                                    self.verdict("wrong-class-accepted", "history %s: instance %d resolves its own %s in class slot %d (%s)" % (desc, i, cls, slot, level), rec)
+                                continue
+                            control = self._same_given(a, I_CLS_SLOT[cls], b, I_CLS_SLOT[cls])
+                            ctx.count("instances:foreign:%s:%s:%s" % ("same-given-keys" if control else "independent", level, "accepted" if acc else "refused"))
+                            if acc and (level == "sm" or not control or slot not in (own_slot, 4)):
+                                self.verdict("foreign-accepted",
+                                              "history %s: instance %d (%s) accepts at the %s (slot %d) the %s that instance %d (%s) minted for (%s, %s); "
+                                              "the two were built independently%s" % (
+                                                  desc, j, desc_of(b), "session manager" if level == "sm" else "handler", slot, cls, i, desc_of(a),
+                                                  f["user"], f["client"], "" if not control else " (same given keys: the handler may read it, nothing may resolve it)"), rec)
+                        for s, acc in eps.items():
+                            rec = dict(base, level="endpoint", slot=s, accepted=acc)
+                            ctx.case_seen(rec, True)
+                            ctx.count("instances:foreign:endpoint:%s" % ("accepted" if acc else "refused"))
+                            if acc:
+                                self.verdict("foreign-accepted", "history %s: the %s endpoint slot of instance %d (%s) accepts the %s that instance %d (%s) "
+                                              "minted for (%s, %s)" % (desc, s, j, desc_of(b), cls, i, desc_of(a), f["user"], f["client"]), rec)
+                    # ---- its plaintext encrypted anew under every other key of the history, offered to its minter
+                    hd = a.th.handler[cls]
+                    if fi >= reenc_flows or raw_key(hd) is None:
+                        continue
+                    plain = hd.crypt.decrypt(base64.b64decode(val))
+                    for i2, b in enumerate(insts):
+                        for q, kslot in enumerate(I_KEYSLOT):
+                            if b.keys[q] is None or (i2 == i and kslot == I_CLS_SLOT[cls]):
+                                continue
+                            enc = b.sm.crypt if kslot == "sm" else b.th.handler[I_SLOTS[q][1]].crypt
+                            forged = base64.b64encode(enc.encrypt(plain)).decode("utf-8")
+                            res = ask(a, forged)
+                            eps = at_endpoints(a, forged, f["client"], SLOT_OF[cls]) if i2 != i else {}
+                            control = self._same_given(a, I_CLS_SLOT[cls], b, kslot)
+                            base = {"kind": "instance-reencrypted", "family": family, "history": desc, "minter": i, "key_of": [i2, kslot],
+                                    "minter_spec": a.spec, "key_owner_spec": b.spec, "class": cls, "session": [f["user"], f["client"]],
+                                    "genuine": val[:300], "value": forged[:300]}
+                            model_case(i, i, cls, (i2, q), res, base)
+                            for (level, slot), acc in res.items():
+                                rec = dict(base, level=level, slot=slot, accepted=acc)
+                                ctx.case_seen(rec, True)
+                                who = "own-other-slot" if i2 == i else ("same-given-keys" if control else "independent")
+                                ctx.count("instances:reencrypted:%s:%s:%s" % (who, level, "accepted" if acc else "refused"))
+                                if acc and i2 != i and not control:
+                                    self.verdict("reencrypted-accepted",
+                                                  "history %s: instance %d (%s) accepts at the %s (slot %d) a value it never minted: the plaintext of its %s for "
+                                                  "(%s, %s) encrypted under the %s key of the independently built instance %d (%s)" % (
+                                                      desc, i, desc_of(a), "session manager" if level == "sm" else "handler", slot, cls, f["user"], f["client"],
+                                                      kslot, i2, desc_of(b)), rec)
+                            for s, acc in eps.items():
+                                rec = dict(base, level="endpoint", slot=s, accepted=acc)
+                                ctx.case_seen(rec, True)
+                                ctx.count("instances:reencrypted:endpoint:%s" % ("accepted" if acc else "refused"))
+                                if acc:       # the endpoints match the exact value: never minted, never accepted - whoever holds the key
+                                    self.verdict("reencrypted-accepted", "history %s: the %s endpoint slot of instance %d (%s) accepts the plaintext of its %s for "
+                                                  "(%s, %s) encrypted under the %s key of instance %d (%s)" % (desc, s, i, desc_of(a), cls, f["user"], f["client"],
+                                                                                                               kslot, i2, desc_of(b)), rec)
+
+    # ---- the model on all of it
+    def start(self):
+        """the model on all of it: the coqc jobs run while the driver goes on with the other families"""
+        ctx = self.ctx
+        imports = ["Lib.Base", "Lib.PyStr", "Lib.Crypto", "Model.Lv", "Model.TokenFmt"]
+        pre = "".join(self.defs)
+        jobs = [("ifresh", "ifresh_case", self.fresh_cases, "chk_ifresh")]
+        jobs += [("icross", "igroup_case", self.cross_cases[k:k + 400], "chk_igroup") for k in range(0, len(self.cross_cases), 400)]
+        from concurrent.futures import ThreadPoolExecutor
+        import engine
+
+        def run(job):
+            label, ty, cases, chk = job
+            if not cases:
+                return job, [], None
+            with _ishard_lock:
+                _ishard_seq[0] += 1
+                name = "%s_%s_g%03d" % (ctx.prop, label, _ishard_seq[0])
+            body = "Open Scope nat_scope.\n" + pre + "Definition cases : list (%s) := [\n%s\n].\nEval vm_compute in (bad_indices (%s) cases).\n" % (
+                ty, ";\n".join(t for t, _ in cases), chk)
+            rc, out, vals = ctx.coq_eval(name, imports, body)
+            if rc != 0 or not vals:
+                return job, [], "correspondence shard %s does not evaluate: %s" % (name, out.strip()[-600:])
+            try:
+                idx = parse_idx(vals[-1])
+            except ValueError as e:
+                return job, [], "correspondence shard %s: %s" % (name, e)
+            return job, [(name, k) for k in idx], None
+        ctx.ensure_built(imports)
+        self.pool = ThreadPoolExecutor(max_workers=max(1, min(engine.NCPU // 2, len(jobs))))
+        self.futures = [self.pool.submit(run, jb) for jb in jobs]
+
+    def finish(self):
+        ctx = self.ctx
+        results = [f.result() for f in self.futures]
+        self.pool.shutdown()
+        nbad = 0
+        for (label, ty, cases, chk), bad, problem in results:
+            if problem:
+                ctx.broken.append(problem)
+                continue
+            ctx.traces += len(cases)
+            for name, k in bad:
+                nbad += 1
+                if nbad > 25:
+                    continue
+                rec = cases[k][1]
+                if label == "ifresh":
+                    ctx.mismatch("key material of independently built provider instances: the model (every generated key is a new draw, draws "
+                                 "distinct) and the real handlers disagree on which keys are equal (%s[%d]); shared key slots (instance, slot, "
+                                 "instance, slot): %r" % (name, k, rec.get("shared")), rec, model=cases[k][0][:400])
+                else:
+                    ctx.mismatch("a token of one instance offered to another (accepted_at: the three class handlers 0-2 and the class-agnostic "
+                                 "lookup 4, at the handler and at the session manager): model and implementation disagree (%s[%d])" % (name, k), rec,
+                                 model=cases[k][0][:300])
+        if nbad > 25:
+            ctx.mismatch("... and %d more disagreements on independently built instances" % (nbad - 25), {})
+
+    def evaluate(self):
+        self.start()
+        self.finish()
+
+
+import threading as _threading
+_ishard_lock = _threading.Lock()
+_ishard_seq = [0]
+
+
+def parse_idx(v):
+    import engine
+    return engine.parse_nat_list(v)
+
+
+def desc_of(inst):
+    return "%s: %s" % (inst.kind, ", ".join("%s=%s" % (k, inst.spec[k]) for k in I_KEYSLOT))
+
+
+def instance_histories(ctx, rng):
+    import logging
+    noisy = [logging.getLogger(n) for n in ("cryptojwt.jws.jws", "idpyoidc.server.token.handler", "idpyoidc.server.session.database")]
+    levels = [lg.level for lg in noisy]
+    for lg in noisy:          # every foreign value makes the libraries log it in full
+        lg.setLevel(logging.CRITICAL)
+    import time
+    t0 = time.time()
+    try:
+        return _instance_histories(ctx, rng)
+    finally:
+        ctx.notes.append("independently built instances (key sources): %.1f s" % (time.time() - t0))
+        for lg, lv in zip(noisy, levels):
+            lg.setLevel(lv)
+
+
+def _instance_histories(ctx, rng):
+    H = InstanceHistories(ctx)
+    hs, sms = H.hs, H.sms
+    gen_h = [n for n, (m, _) in hs.items() if m == GEN]
+    gen_sm = [n for n, (m, _) in sms.items() if m == GEN]
+    others = ["default_crypt_config", "init_encrypter", "default-token", "session-database", "cookie-handler", "server"]
+    uni = lambda h, sm: {"code": h, "token": h, "refresh": h, "sm": sm}
+    two = (("diana", "client_1"), ("babs", "client_2"))
+    few = two[:1] if ctx.quick else two
+    # (a) the documented default set-up three times in one process, other encrypters built in between
+    doc = uni("lifetime-only", "absent")
+    H.run("documented-default", [("i", "provider", doc), ("i", "provider", doc), ("i", "provider", doc)], reenc_flows=2)
+    H.run("documented-default", [("i", "provider", doc), ("o", "default-token"), ("o", "server"), ("i", "provider", doc), ("o", "init_encrypter"),
+                                 ("i", "provider", doc)])
+    # (b) every way of leaving the key to the library, twice in a row as real providers; every session-manager source in turn
+    for k, h in enumerate(gen_h):
+        sm = gen_sm[k % len(gen_sm)]
+        steps = [("i", "provider", uni(h, sm)), ("i", "provider", uni(h, sm))]
+        if k % 2:
+            steps.insert(1, ("o", others[k % 5]))
+        H.run("same-source", steps, pairs=few if k % 4 else two)
+    # (c) the same through handler.factory and through DefaultToken objects built directly (no provider around them)
+    for k, h in enumerate(gen_h):
+        if ctx.quick and k % 2 and h not in ("lifetime-only", "crypt-none"):
+            continue
+        kind = "direct" if h not in ("legacy-password", "explicit-class", "explicit-class-kwargs") and k % 3 != 1 else "factory"
+        H.run("bare-handlers", [("i", kind, uni(h, gen_sm[k % 3])), ("o", others[(k + 2) % 5]), ("i", kind, uni(h, gen_sm[k % 3])),
+                                ("i", "provider" if k % 4 == 0 else kind, uni(h, gen_sm[(k + 1) % 3]))], pairs=few)
+    H.run("bare-handlers", [("i", "direct", doc), ("i", "direct", doc), ("i", "factory", doc), ("i", "factory", doc)])
+    # (d) controls: the same given keys (a provider restarted with its key material, two workers of one deployment) next to
+    #     other given keys and to generated ones
+    pinned = uni("given-password-salt", "given-password-salt")
+    H.run("given", [("i", "provider", pinned), ("i", "provider", pinned), ("i", "provider", uni("given-other-password-salt", "given-key"))])
+    H.run("given", [("i", "provider", uni("given-key-1", "given-key")), ("o", "init_encrypter"), ("i", "provider", uni("given-key-1", "given-key")),
+                    ("i", "provider", uni("given-key-2", "given-key"))])
+    H.run("given", [("i", "provider", pinned), ("i", "provider", uni("given-password-salt-top", "absent")), ("i", "provider", doc)])
+    H.run("given", [("i", "factory", uni("given-key-1", "given-key")), ("i", "direct", uni("given-key-1", "absent")), ("i", "direct", uni("given-key-2", "absent"))])
+    # (e) JWT access / refresh handlers next to opaque ones (the signing keys come from one key file: given)
+    H.run("jwt-mixed", [("i", "provider", {"code": "lifetime-only", "token": "jwt", "refresh": "lifetime-only", "sm": "absent"}),
+                        ("i", "provider", {"code": "lifetime-only", "token": "jwt", "refresh": "empty-kwargs", "sm": "empty"})])
+    H.run("jwt-mixed", [("i", "provider", {"code": "crypt-none", "token": "jwt", "refresh": "jwt", "sm": "encrypter-default-config"}),
+                        ("i", "provider", {"code": "crypt-none", "token": "jwt", "refresh": "jwt", "sm": "encrypter-default-config"})])
+    # (f) random histories: every slot of every instance its own source
+    allh = list(hs)
+    for _ in range(6 if ctx.quick else 150):
+        steps = []
+        for _ in range(rng.randint(2, 3)):
+            if rng.random() < 0.3:
+                steps.append(("o", rng.choice(others[:5])))
+            spec = {s: rng.choice(gen_h if rng.random() < 0.7 else allh) for s in ("code", "token", "refresh")}
+            spec["sm"] = rng.choice(list(sms))
+            kind = rng.choice(["provider", "provider", "factory", "direct"])
+            if kind == "direct":
+                spec = {s: (v if v not in ("legacy-password", "explicit-class", "explicit-class-kwargs", "same-object") else "lifetime-only") for s, v in spec.items()}
+            steps.append(("i", kind, spec))
+        H.run("random", steps, pairs=few)
+    H.start()
+    return H
+
+
 VARIANTS = [(True, False, None), (False, False, None), (True, True, None), (True, True, "ES256"),
             (True, False, None, "alias", False), (True, True, None, "alias", True)]
 
@@ -1780,6 +2384,8 @@ def run(ctx):
     plain_cases(ctx, rng, server, 200 if ctx.quick else 5000)
     info_matrix(ctx, True)
     info_matrix(ctx, False)
+    # independently built instances: where the handler keys come from (the model is evaluated on them in the background)
+    inst = instance_histories(ctx, rng)
     # the last two: the handler slots of one kind reference one kwargs dict (opaque x3; JWT access + JWT refresh)
     for variant in VARIANTS:
         endpoint_oracle(ctx, rng, variant, 2 if ctx.quick else 12, 14 if ctx.quick else 80)
@@ -1805,6 +2411,7 @@ def run(ctx):
             cases += third_party_oracle(ctx, rng, variant, mode)
     ctx.coq_check_cases(["Lib.Base", "Lib.PyStr", "Lib.Crypto", "Model.Lv", "Model.TokenFmt"], "tfcase", "chk_tflight", cases,
                         shard=120, label="tflight_asker", diag="diag_tflight")
+    inst.finish()
 
 
 def replay(ctx, rp):
